@@ -144,6 +144,17 @@ fn judge_word(ctx: &mut Ctx, kind: usize, w: u32, via_message: bool) {
         if !same {
             ctx.violate(format!("C17:{}:clone-differs", name), format!("clone of the value decoded from {:#010x} is not the same value", w), wit.clone());
         }
+        // position independence of the encoding: behind 64 KiB+ of earlier output and through a
+        // window writer the same 10 octets must come out
+        {
+            let want = crate::gen::wire::raw_record(attr, false, 0, &w.to_be_bytes(), true);
+            let base = *ctx.rng.pick(&[65_536usize, 70_000, 0x1_0000_0000]);
+            match exec::encode_avp(&v, Wk::OffsetLenient(base)) {
+                exec::EncOut::Ok(e) if e.bytes == want => ctx.rep.bucket("via_window_writer"),
+                exec::EncOut::Ok(e) => ctx.violate(format!("C17:{}:bits-lost:behind-earlier-output", name), format!("wire word {:#010x} re-encodes as {} when the writer already holds {} octets", w, crate::report::hex(&e.bytes), base), wit.clone()),
+                exec::EncOut::Panic(p) => ctx.violate(format!("C17:{}:encode-panic:behind-earlier-output", name), format!("re-encoding {:#010x} into a writer that already holds {} octets panicked: {}", w, base, p.message), wit.clone()),
+            }
+        }
         // through hide -> wire -> reveal
         {
             let secret = b"bitmask";
